@@ -213,6 +213,14 @@ func one(seed uint64) (int, error) {
 			if st, err := os.Stat(root + other); err == nil && st.IsDir() {
 				continue
 			}
+			if r.Chance(1, 3) {
+				// a second name for the same file: writes through one show under the other
+				e1, e2 := simos.Link(name, other), os.Link(rn, root+other)
+				if errClass(e1) != errClass(e2) {
+					return i, fmt.Errorf("op %d Link(%s,%s): sim %v, real %v", i, name, other, e1, e2)
+				}
+				continue
+			}
 			e1, e2 := simos.Rename(name, other), os.Rename(rn, root+other)
 			if errClass(e1) != errClass(e2) {
 				return i, fmt.Errorf("op %d Rename(%s,%s): sim %v, real %v", i, name, other, e1, e2)
